@@ -1293,6 +1293,49 @@ impl<'a> Exec<'a> {
                 }
                 Ok(StepInfo::default())
             }
+            Op::BatchDeleteCommit { items, ks } => {
+                let victim = ks_or_skip!(*ks);
+                let mut b = inst!().db.batch();
+                let mut kept: Vec<BItem> = vec![];
+                for it in items {
+                    let Some(k) = inst!().k(it.ks) else { continue };
+                    if !self.model.ks.contains_key(&it.ks) {
+                        continue;
+                    }
+                    match &it.kind {
+                        BKind::Put(v) => b.insert(k, &keys[it.key as usize], v.bytes()),
+                        BKind::Del => b.remove(k, &keys[it.key as usize]),
+                        BKind::DelWeak => b.remove_weak(k, &keys[it.key as usize]),
+                    }
+                    if it.ks != *ks {
+                        kept.push(it.clone());
+                    }
+                }
+                if let Err(e) = inst!().db.delete_keyspace(victim.clone()) {
+                    viol!("unexpected-error", "delete_keyspace failed: {e:?}")
+                }
+                {
+                    let i = self.inst.as_mut().unwrap();
+                    self.deleted_ids.push(victim.id());
+                    i.drop_ks_handle(*ks as usize);
+                    i.stale[*ks as usize].push(victim);
+                }
+                self.model.ks.remove(ks);
+                self.stats.inc("keyspaces_deleted");
+                // the batch commits what is left of it, or is refused as a whole
+                match b.commit() {
+                    Ok(()) => {
+                        let op2 = Op::Batch { items: kept, dur: None };
+                        apply_write(&mut self.model, keys, &op2);
+                        self.reset_sticky(&op2);
+                        self.stats.inc("batches_committed_after_keyspace_delete");
+                    }
+                    Err(fjall::Error::KeyspaceDeleted) => {}
+                    Err(e) => viol!("unexpected-error", "commit of a batch with items of a deleted keyspace failed: {e:?}"),
+                }
+                self.commit_history();
+                Ok(StepInfo { acked: true, failed: None, failed_state: None })
+            }
             Op::CheckFiltered => {
                 // every keyspace has just been flushed completely and major-compacted with no view
                 // open: a filter that is in effect has seen every stored item, so no item with a
